@@ -277,21 +277,13 @@ theorem inlineGo_sound {α : Type} (I : Interp α) :
     | assign x e =>
       cases e with
       | sym y =>
-        by_cases hp : isPlainSym y = true
-        · simp only [inlineSafe, hp, ↓reduceIte, Bool.and_eq_true, Bool.not_eq_true',
-            List.contains_eq_mem, decide_eq_false_iff_not] at hsafe
-          simp only [inlineGo, inlineFinal, hp, ↓reduceIte, run_cons]
-          apply ih _ _ _ _ hsafe.2
-          simp only [St.exec]
-          apply hinv.defer x (.sym y)
-          exact hinv.eval_fresh (.sym y) (by intro z hz; simp [Expr.syms] at hz; subst hz; exact hsafe.1)
-        · have hp' : isPlainSym y = false := by simpa using hp
-          simp only [inlineSafe, hp', Bool.false_eq_true, ↓reduceIte, Bool.and_eq_true] at hsafe
-          simp only [inlineGo, inlineFinal, hp', Bool.false_eq_true, ↓reduceIte, run_cons]
-          apply ih cur _ _ _ hsafe.2
-          apply keep
-          simp only [St.defs, List.all_cons, List.all_nil, Bool.and_true, Bool.and_eq_true]
-          exact hsafe.1
+        simp only [inlineSafe, Bool.and_eq_true, Bool.not_eq_true',
+          List.contains_eq_mem, decide_eq_false_iff_not] at hsafe
+        simp only [inlineGo, inlineFinal, run_cons]
+        apply ih _ _ _ _ hsafe.2
+        simp only [St.exec]
+        apply hinv.defer x (.sym y)
+        exact hinv.eval_fresh (.sym y) (by intro z hz; simp [Expr.syms] at hz; subst hz; exact hsafe.1)
       | lit n =>
         simp only [inlineSafe, Bool.and_eq_true] at hsafe
         simp only [inlineGo, inlineFinal, run_cons]
